@@ -14,6 +14,11 @@ AllKinds == {"page", "textboxh", "textboxv", "textline", "char", "anno", "figure
 StringKinds == {"page", "textboxh", "textline", "char", "figure", "image"}
 OnlyIntended == {{}}
 AsCodedAll == {{}, {"FigureNameRaw", "TextSinkUtf8", "BomPerWrite"}}
+\* strings for the sink dimension: ASCII characters that escaping codecs rewrite, a CJK run followed by ASCII
+StrSinks(n) == UNION {[1..m -> {cPLAIN, cPLUS, cTILDE, cNONASCII, cLT}] : m \in 0..n}
+StrSinks3 == StrSinks(3)
+StrSinks2 == StrSinks(2)
+DevBypass == {{"AsciiBypass"}}
 DevFig == {{"FigureNameRaw"}}
 DevUtf8 == {{"TextSinkUtf8"}}
 DevBom == {{"BomPerWrite"}}
